@@ -252,10 +252,65 @@ func raceC06(seed uint64, seconds int) {
 			}
 		}(ri)
 	}
+	// fresh-router bursts: nodes are split only the FIRST time a sibling arrives (they never re-merge), so windows that
+	// open while a node of a kept route is being split exist once per router: build a new locked router over and over,
+	// let one writer register the splitting siblings while readers build strict URLs of, and serve, the kept routes
+	var nBursts atomic.Int64
+	for bi := 0; bi < 2; bi++ {
+		wg.Add(1)
+		go func(bi int) {
+			defer wg.Done()
+			rg := rand.New(rand.NewPCG(seed, uint64(bi)+500))
+			for !stop.Load() {
+				fr := mux.NewRouter("burst", raceCall, &H{base: "notFound"}, notAllowedBuilder, optionsBuilder, mux.WithLock(true), mux.WithDigitInterceptor("digit"))
+				for _, k := range keep {
+					fr.Handle(k.pattern, &H{base: "user:" + strconv.Itoa(k.hid), hid: k.hid}, nil, "GET", "POST")
+				}
+				var bw sync.WaitGroup
+				var done atomic.Bool
+				bw.Add(1)
+				go func() {
+					defer bw.Done()
+					defer done.Store(true)
+					for _, i := range rg.Perm(len(toggled)) {
+						t := toggled[i]
+						func() {
+							defer func() { recover() }()
+							fr.Handle(t.pattern, &H{base: "user:" + strconv.Itoa(t.hid), hid: t.hid}, nil, "GET")
+						}()
+					}
+				}()
+				for q := 0; q < 2; q++ {
+					bw.Add(1)
+					go func(q int) {
+						defer bw.Done()
+						for i := 0; !done.Load() || i < 4; i++ {
+							k := keep[(i+q)%len(keep)]
+							func() {
+								defer func() {
+									if v := recover(); v != nil {
+										rep.badf("burst URL/serve: runtime fault %v", v)
+									}
+								}()
+								if u, err := fr.URL(true, k.pattern, k.urlParams); err != nil || u != k.witness {
+									rep.badf("burst: URL(strict,%s) = %q, %v; want %q", k.pattern, u, err, k.witness)
+								}
+								if res, fault := serveOnce(fr, "GET", k.witness); fault != nil || res == nil || res.base != "user:"+strconv.Itoa(k.hid) || res.pattern != k.pattern || !sameMap(res.params, k.params) {
+									rep.badf("burst: untouched GET %s answered by %+v (fault %v)", k.witness, res, fault)
+								}
+							}()
+						}
+					}(q)
+				}
+				bw.Wait()
+				nBursts.Add(1)
+			}
+		}(bi)
+	}
 	time.Sleep(time.Duration(seconds) * time.Second)
 	stop.Store(true)
 	wg.Wait()
-	st, _ := json.Marshal(map[string]int64{"serves": nServe.Load(), "writes": nWrite.Load(), "routes": nRoutes.Load(), "urls": nURL.Load(), "bad": int64(rep.bad), "writers": int64(writers), "readers": int64(readers)})
+	st, _ := json.Marshal(map[string]int64{"serves": nServe.Load(), "writes": nWrite.Load(), "routes": nRoutes.Load(), "urls": nURL.Load(), "bursts": nBursts.Load(), "bad": int64(rep.bad), "writers": int64(writers), "readers": int64(readers)})
 	fmt.Printf("STATS %s\n", st)
 	if rep.bad > 0 {
 		os.Exit(1)
